@@ -108,8 +108,13 @@ func (l *lineReader) Read(p []byte) (n int, err error) {
 		var expectedBytes [3]byte
 		var m int
 		m, err = base64.StdEncoding.Decode(expectedBytes[0:], line[1:])
-		if m != 3 || err != nil {
+		if err != nil {
 			return
+		}
+		if m != 3 {
+			// A padded checksum ("=xxx=") decodes without error to fewer
+			// than three bytes; it is not a CRC-24.
+			return 0, ArmorCorrupt
 		}
 		l.crc = uint32(expectedBytes[0])<<16 |
 			uint32(expectedBytes[1])<<8 |
